@@ -23,7 +23,7 @@ func init() {
 		PropCheck: "c08_prop_bad_ids",
 		Gen:       func(tier string, r *rand.Rand) []Case { return simGen(tier, r, "C08") },
 		Run:       simRunJSON,
-		Rule:      "network simulations (n real instances for the honest participants, scripted Byzantine participants, random admissible delivery orders): plain VSS vector kind x share kind x order; Qual/Joint dealer faults (vector kind x phase, share kind per receiver, answer kind per complainer, unsolicited answers, garbage broadcasts) and complainer faults (spurious / duplicate / late / malformed complaints), > t and exactly t complaints, order hints (share-first, vector-first, answers-first, complaints-first); audit families: the vector defects at the first / a middle / the last position and all at once, one whole point too many / too few, points of E2 with a small-order component (a point of order 13, a G2 point plus it) first and last, the identical vector twice, wrong-then-right and right-twice shares and answers, shares / answers one byte too long, complaint / answer indices n and 255, a bare complaint tag, nil instead of empty messages; a vector whose defect (an order-13 shift of one coefficient) stays consistent with the share of the participant at evaluation point 13; a colluding Byzantine complainer answered in every way, also before its complaint; a different share defect per receiver and a different answer per complainer; polynomials with a root at a participant's point (its correct share is 0); two faulty dealers of different kinds and two dealers with one polynomial (Joint); thresholds t >= n/2 (n = 2..5); n = 254 with indices up to 253 (sampled receivers); plain VSS with an honest dealer and a Byzantine impostor; runner-side: byte-slice arguments unmodified after every call; non-trivial if an event was emitted; distinct by scenario",
+		Rule:      "network simulations (n real instances for the honest participants, scripted Byzantine participants, random admissible delivery orders): plain VSS vector kind x share kind x order; Qual/Joint dealer faults (vector kind x phase, share kind per receiver, answer kind per complainer, unsolicited answers, garbage broadcasts) and complainer faults (spurious / duplicate / late / malformed complaints), > t and exactly t complaints, order hints (share-first, vector-first, answers-first, complaints-first); audit families: the vector defects at the first / a middle / the last position and all at once, one whole point too many / too few, points of E2 with a small-order component (a point of order 13, a G2 point plus it) first and last, the identical vector twice, wrong-then-right and right-twice shares and answers, shares / answers one byte too long, complaint / answer indices n and 255, a bare complaint tag, nil instead of empty messages; a vector whose defect (an order-13 shift of one coefficient) stays consistent with the share of the participant at evaluation point 13; a colluding Byzantine complainer answered in every way, also before its complaint; a different share defect per receiver and a different answer per complainer; polynomials with a root at a participant's point (its correct share is 0); two faulty dealers of different kinds and two dealers with one polynomial (Joint); thresholds t >= n/2 (n = 2..5); n = 254 with indices up to 253 (sampled receivers); plain VSS with an honest dealer and a Byzantine impostor; runner-side: byte-slice arguments unmodified after every call; non-trivial if an event was emitted; distinct by scenario; Horner coincidences in a participant's public share (x*A_t = +-A_{t-1}, x*acc = A_0) with an otherwise honest scripted dealer that counts as honest; 2..t complainers of which some are answered and some not, in every position",
 		Shard:     12,
 	})
 }
@@ -416,6 +416,28 @@ func simGen(tier string, r *rand.Rand, prop string) []Case {
 					in.Hint = pick(r, []string{"answers-first", "", "share-first", "vector-last"})
 					cs = append(cs, simFinish("unsolicited-"+proto, in))
 				}
+			}
+		}
+	}
+	// ---- a dealer disqualified DURING round 1 (garbage broadcast) that also pre-answered a
+	// complaint nobody made yet and withholds that participant's share: at the shares timeout the participant
+	// builds its complaint and finds the stored answer - the verdict must stay "disqualified" for it as for
+	// everybody else ----
+	for _, proto := range protos {
+		if proto == "vss" {
+			continue
+		}
+		for _, how := range []string{"badtag", "empty", "sharetag"} {
+			for _, sk := range []string{"omit", "late", "omit-lateok"} {
+				n, t := conf()
+				b := r.IntN(n)
+				in := simBase(r, proto, n, t, b, []int{b})
+				victim := in.Honest[r.IntN(len(in.Honest))]
+				in.Byz[0].Shares[strconv.Itoa(victim)] = sk
+				in.Byz[0].Unsol = []simUns{{Phase: 0, Complainer: victim, Kind: "ok"}}
+				in.Byz[0].Extra = []simExtra{{Phase: 0, Kind: how}}
+				in.Hint = pick(r, []string{"", "vector-first", "answers-first"})
+				cs = append(cs, simFinish("disqualified-then-timeout-"+proto, in))
 			}
 		}
 	}
